@@ -2,5 +2,5 @@
 EXTENDS CfbMdc, Json
 GenCase == (st = "prefix") =>
    PrintT(<<"CASE", ToJson([n |-> n, mode |-> mode, manip |-> manip, len |-> L(n), newlen |-> Len(src),
-                            manipulated |-> Manipulated])>>)
+                            manipulated |-> Manipulated, maxmsg |-> MaxMsg, fits |-> (mode = "streaming" \/ Len(src) - P <= MaxMsg)])>>)
 =============================================================================
